@@ -1,316 +1,1003 @@
-"""C18 print / import round trip (structural clauses)."""
+"""C18 print / import round trip, decided by abstract evaluation.
+
+The printers (``_latex`` of Index, the tensor classes, KroneckerDelta) are evaluated by ``sa.symex`` on abstract objects
+and give concrete text; ``import_from_sympy_latex`` is evaluated on concrete text with the tensor constructors, ``Mul``,
+``Pow``, ``NO``, ``sqrt``, ``Expr`` and ``get_symbols`` left uninterpreted and gives a term.  Text and term are compared
+with the documented format / with the object the text stands for, both written down here independently of the source.
+Nothing depends on local names, statement layout or the nested helper functions of the importer: the only anchors are
+``func:import_from_sympy_latex`` (with its two parameters), the ``_latex`` methods, the functions of tensor_names.py,
+``Expr.__init__`` and the vocabulary they call.
+"""
 from __future__ import annotations
 
 import ast
+import re
+from fractions import Fraction
 
-from ..model import AnalysisError, U, Defs, calls_in, call_name, walk_fn, kwarg, enclosing, enclosing_stmt
-from ..pathcond import conditions
-from . import common
+from ..model import AnalysisError, calls_in, call_name
+from ..symex import Symex, Obj, Raised
+from ..terms import (T, sym, t_mul, t_add, t_pow, is_num, args_of, expand_products, product_key, multiset,
+                     multiset_diff, show, subterms)
 
 EXPLANATION = (
-    "R18a: writer/reader agreement on the tensor class per configurable name: table W (every "
-    "constructor call in the package whose name argument comes from tensor_names.*) against table R "
-    "(the dispatch of import_from_sympy_latex). R18b: token agreement between the _latex printers "
-    "(Index, AntiSymmetricTensor, NonSymmetricTensor, KroneckerDelta) and the reader (spin suffix "
-    "words and codes, upper/lower order, delta blank separation, dagger, exponents). R18b': no "
-    "writer format string contains the separators the reader splits on ('}{', top-level blank or "
-    "sign). R18c: default-name mapping uses the same split logic as is_t_amplitude/is_gs_density. "
-    "R18d: reader arithmetic (sign table, numerator/denominator order, every term added once, "
-    "exponent restored, NO / bracket recursion forwards convert_default_names). R18e: re-applying "
-    "the assumptions: Expr.__init__ applies declared bra-ket (anti)symmetry whenever either list is non-empty.")
+    "All rules evaluate the library abstractly (sa.symex) and compare values, not source text. "
+    "R18b (writer): Index/AntiSymmetricTensor/SymmetricTensor/Amplitude/NonSymmetricTensor/KroneckerDelta._latex are "
+    "evaluated on abstract objects (spin-free, alpha, beta, mixed, numbered indices, empty groups); the text equals the "
+    "documented format {name^{upper}_{lower}}, {name_{indices}}, \\delta_{i j}, name_{\\alpha|\\beta}. R18b (reader): "
+    "import_from_sympy_latex is evaluated on that text; every index comes back with its own name and spin (a spin word "
+    "labels the last index before it only), groups in order, deltas with two indices, a^\\dagger_{p} -> Fd / a_{p} -> F, "
+    "exponents restored, invalid spin words / operators / group counts refused. R18b': the text the printers produce for "
+    "one object is one token for the importer (balanced braces, no top-level blank or sign, no '}{'). R18a: writer table "
+    "W (tensor class of every constructor call whose name may flow from tensor_names.<field>, may-analysis over all "
+    "bindings) against the class the evaluated importer builds for a tensor of that configured name, under the default "
+    "and under a customised name configuration; name/upper/lower restored in order. R18c: decision tables of "
+    "is_t_amplitude / is_gs_density / is_adc_amplitude / map_default_name under both configurations against the naming "
+    "scheme base[order][cc]; the importer maps default names iff convert_default_names, also inside brackets, NO groups "
+    "and sum denominators. R18d: importer arithmetic on sums, signs, fractions (numerator/denominator), integer and "
+    "square-root prefactors, brackets with exponents, NO groups, symbols: the evaluated value equals the value the text "
+    "denotes (multiset of products; operator order kept), the result is a bare Expr, empty text is 0. "
+    "R18e: Expr.__init__ evaluated over the table sym_tensors x antisym_tensors x real x target_idx: "
+    "declared names are stored, the bra-ket (anti)symmetry is applied with all declared names in place whenever either "
+    "list is non-empty, make_real iff real, target indices forwarded. Thorough tier: the literal round trip "
+    "import(print(O)) = O with the text of the evaluated printers for every tensor kind x configured name x index group "
+    "under both configurations, alone and embedded in a fraction, a bracket with exponent and a sum.")
 ASSUMPTIONS = [
-    "sympy's own printer for sums, fractions, powers and NO is trusted",
+    "sympy's own printer for sums, products, fractions, powers, square roots, brackets, NO, F and Fd is trusted "
+    "(the texts of these constructs are written down here as sympy 1.14 prints them)",
     "re-print equality is not decided",
+    "get_symbols is modelled by its contract (names split as letter+digits, one spin code per name, None = no spin; "
+    "unequal lengths and unknown spin codes are refused)",
+    "str() of a tensor symbol is the tensor name; dataclasses.fields yields the annotated class attributes of TensorNames "
+    "with their literal defaults",
+    "make_real re-applies the bra-ket symmetry when it adds fock/eri (checked by C06) - used to accept real=True paths of "
+    "Expr.__init__",
+    "the object catalogue is finite (bounded): names, index groups up to three indices, exponents 1, 2, 12",
+    "R18a: the writer table is collected from constructor calls by callee name and a may-flow of tensor_names.<field> "
+    "through local bindings; constructors reached through class-valued variables are not seen",
 ]
 
-CTORS = ("AntiSymmetricTensor", "SymmetricTensor", "Amplitude", "NonSymmetricTensor")
 TWO_GROUP = ("AntiSymmetricTensor", "SymmetricTensor", "Amplitude")
+CTORS = TWO_GROUP + ("NonSymmetricTensor",)
+TN = "tensor_names:TensorNames"
+READER = "func:import_from_sympy_latex"
+CUSTOM = {"eri": "W", "coulomb": "w", "fock": "k", "operator": "o", "gs_amplitude": "tt", "gs_density": "rho",
+          "left_adc_amplitude": "L", "right_adc_amplitude": "R", "orb_energy": "E", "sym_orb_denom": "Q"}
 
 
-def _fields(ctx):
-    cls = ctx.model.cls("tensor_names:TensorNames")
-    return [U(n.target) for n in cls.body if isinstance(n, ast.AnnAssign)]
+# ------------------------------------------------------------------ configurations of tensor_names
+
+def field_defaults(ctx):
+    cls = ctx.model.cls(TN)
+    out = {}
+    for n in cls.body:
+        if not (isinstance(n, ast.AnnAssign) and isinstance(n.target, ast.Name)):
+            continue
+        v = n.value
+        if isinstance(v, ast.Call) and call_name(v) == "field":         # dataclasses.field(default="V")
+            v = next((kw.value for kw in v.keywords if kw.arg == "default"), None)
+        if isinstance(v, ast.Constant) and isinstance(v.value, str):
+            out[n.target.id] = v.value
+    ctx.floor("R18c", "fields of TensorNames with a literal default", len(out), 8)
+    return out
 
 
-def writer_table(ctx):
-    """configurable name field -> {class: [sites]}"""
-    fields = _fields(ctx)
+def configs(ctx):
+    d = field_defaults(ctx)
+    c = {f: CUSTOM.get(f, "z" + chr(65 + k)) for k, f in enumerate(d)}
+    if len(set(c.values())) != len(c) or set(c.values()) & set(d.values()):
+        raise AnalysisError("C18: the customised name configuration collides with the defaults")
+    return d, c
+
+
+# ------------------------------------------------------------------ abstract objects and their documented text
+
+def IDX(name, spin=""):
+    return ("idx", name, spin)
+
+
+_SPIN_TEX = {"": "", "a": "_{\\alpha}", "b": "_{\\beta}"}
+_NAMES = re.compile(r"[A-Za-z][0-9]*")
+
+
+def tex_index(ix):
+    return ix[1] + _SPIN_TEX[ix[2]]
+
+
+def tex_group(g):
+    return "".join(tex_index(i) for i in g)
+
+
+class X:
+    """A piece of an expression: its text as printed and the value it denotes."""
+
+    def __init__(self, tex, val):
+        self.tex, self.val = tex, val
+
+
+def OBJ(cls, *args):
+    return T("obj", cls, *args)
+
+
+def tensor(cls, name, upper, lower):
+    return X("{%s^{%s}_{%s}}" % (name, tex_group(upper), tex_group(lower)), OBJ(cls, name, tuple(upper), tuple(lower), 0))
+
+
+def nonsym(name, idx):
+    return X("{%s_{%s}}" % (name, tex_group(idx)), OBJ("NonSymmetricTensor", name, tuple(idx)))
+
+
+def delta(i, j):
+    return X("\\delta_{%s %s}" % (tex_index(i), tex_index(j)), OBJ("KroneckerDelta", tuple(sorted((i, j)))))
+
+
+def fd(i):
+    return X("{a^\\dagger_{%s}}" % tex_index(i), OBJ("Fd", i))
+
+
+def f(i):
+    return X("a_{%s}" % tex_index(i), OBJ("F", i))
+
+
+def symbol(name):
+    return X(name, OBJ("Symbol", name))
+
+
+def power(x, n):
+    return X(x.tex + "^{%d}" % n, npow(x.val, n))
+
+
+def prod(*xs, coeff=1):
+    parts = ([str(coeff)] if coeff != 1 or not xs else []) + [x.tex for x in xs]
+    return X(" ".join(parts), t_mul(coeff, *[x.val for x in xs]))
+
+
+def sqrt_(n):
+    return X("\\sqrt{%d}" % n, npow(n, Fraction(1, 2)))
+
+
+def frac(num, den):
+    return X("\\frac{%s}{%s}" % (num.tex, den.tex), t_mul(num.val, npow(den.val, -1)))
+
+
+def bracket(x, n=1):
+    return X("\\left(%s\\right)" % x.tex + ("^{%d}" % n if n != 1 else ""), npow(x.val, n))
+
+
+def no(x):
+    return X("\\left\\{%s\\right\\}" % x.tex, OBJ("NO", x.val))
+
+
+def total(*signed):
+    """(sign, X) ... as sympy prints a sum: a leading minus is `- x`, no leading plus."""
+    tex = ""
+    vals = []
+    for k, (sg, x) in enumerate(signed):
+        if k == 0:
+            tex = ("- " if sg < 0 else "") + x.tex
+        else:
+            tex += (" - " if sg < 0 else " + ") + x.tex
+        vals.append(t_mul(sg, x.val))
+    return X(tex, t_add(*vals))
+
+
+# ------------------------------------------------------------------ values
+
+def npow(b, e):
+    """Power with integer exponents distributed over products (commuting factors)."""
+    if isinstance(b, T) and b.op == "mul" and isinstance(e, int):
+        return t_mul(*[npow(x, e) for x in b.args])
+    return t_pow(b, e)
+
+
+def _ix(v):
+    if isinstance(v, (list, tuple)) and not (len(v) == 3 and v[0] == "idx"):
+        return tuple(_ix(x) for x in v)
+    return v
+
+
+_SYMPY_NUMBERS = {"S.One": 1, "S.Zero": 0, "S.NegativeOne": -1, "S.Half": Fraction(1, 2)}
+
+
+def norm(t):
+    """The algebraic value of an importer result: Mul/Add/Pow/Expr/.sympy are interpreted, constructor calls become
+    ``obj`` terms independent of keyword/positional spelling."""
+    if isinstance(t, (list, tuple)):
+        return tuple(norm(x) for x in t)
+    if not isinstance(t, T):
+        return t
+    if t.op == "call":
+        name = t.args[0]
+        a = args_of(t)
+        pos = [norm(x) for x in t.args[1]]
+        g = lambda k, i, d=None: norm(a[k]) if k in a else (norm(a[i]) if i in a else d)
+        if name in ("Expr", "sympify", "Integer", "S", "int") and (pos or "e" in a) and \
+                all(v in (None, False) for k, v in a.items() if k not in (0, "e")):
+            return norm(a["e"]) if "e" in a else pos[0]
+        if name == "Mul":
+            return t_mul(*pos)
+        if name == "Add":
+            return t_add(*pos)
+        if name == "Pow" and len(pos) == 2:
+            return npow(pos[0], pos[1])
+        if name == "Rational" and len(pos) == 2 and all(is_num(x) for x in pos):
+            return Fraction(pos[0], pos[1])
+        if name == "sqrt" and len(pos) == 1:
+            return npow(pos[0], Fraction(1, 2))
+        if name in TWO_GROUP:
+            return OBJ(name, g("name", 0), _ix(g("upper", 1)), _ix(g("lower", 2)), g("bra_ket_sym", 3, 0))
+        if name == "NonSymmetricTensor":
+            return OBJ(name, g("name", 0), _ix(g("indices", 1)))
+        if name == "KroneckerDelta":
+            ij = [g("i", 0), g("j", 1)] + pos[2:]
+            try:
+                ij = sorted(ij)
+            except TypeError:
+                pass
+            return OBJ(name, tuple(ij))
+        if name in ("F", "Fd", "NO", "Symbol"):
+            return OBJ(name, *pos, *[(k, norm(v)) for k, v in t.args[2]])
+        return T("call", name, tuple(pos), tuple((k, norm(v)) for k, v in t.args[2]))
+    if t.op == "attr" and t.args[1] == "sympy":
+        return norm(t.args[0])
+    if t.op == "sym" and t.args[0] in _SYMPY_NUMBERS:
+        return _SYMPY_NUMBERS[t.args[0]]
+    args = [norm(x) for x in t.args]
+    if t.op == "mul":
+        return t_mul(*args)
+    if t.op == "add":
+        return t_add(*args)
+    if t.op == "pow":
+        return npow(args[0], args[1])
+    return T(t.op, *args)
+
+
+def _is_operator(x):
+    if isinstance(x, T) and x.op == "pow":
+        return _is_operator(x.args[0])
+    return isinstance(x, T) and x.op == "obj" and x.args[0] in ("F", "Fd", "NO")
+
+
+def keys(v):
+    """Multiset of products of a value; commuting factors sorted, second-quantised operators keep their order."""
+    def deep(x):
+        if isinstance(x, T) and x.op == "obj" and x.args[0] == "NO":
+            return OBJ("NO", sym(repr(sorted(keys(x.args[1]).items()))))
+        if isinstance(x, T) and x.op == "pow":
+            return T("pow", deep(x.args[0]), x.args[1]) if not (isinstance(x.args[0], T) and x.args[0].op == "add") \
+                else T("pow", sym(repr(sorted(keys(x.args[0]).items()))), x.args[1])
+        return x
+    return multiset(product_key(c, [deep(x) for x in fs], lambda x: not _is_operator(x)) for c, fs in expand_products(v))
+
+
+def same_value(a, b):
+    return keys(a) == keys(b)
+
+
+def bare_expr(v):
+    """The importer returns Expr(<value>) without assumptions."""
+    if not (isinstance(v, T) and v.op == "call" and v.args[0] == "Expr"):
+        return False
+    a = args_of(v)
+    return all(x in (None, False) for k, x in a.items() if k not in (0, "e"))
+
+
+# ------------------------------------------------------------------ evaluation of the library
+
+def positional(fn, *values, **named):
+    """Arguments bound the way callers pass them: the leading parameters by position, the rest by keyword."""
+    params = [x.arg for x in fn.args.posonlyargs + fn.args.args]
+    if len(params) < len(values):
+        raise AnalysisError(f"C18: {getattr(fn, '_qual', fn.name)} takes fewer than {len(values)} positional parameters")
+    d = dict(zip(params, values))
+    d.update(named)
+    return d
+
+
+def _get_symbols(sx, a, kw):
+    """Contract of indices.get_symbols."""
+    b = dict(zip(("indices", "spins"), a))
+    b.update(kw)
+    indices, spins = b.get("indices"), b.get("spins")
+    if isinstance(indices, T) or isinstance(spins, T):
+        return NotImplemented
+    if not indices:
+        return []
+    if isinstance(indices, tuple) and len(indices) == 3 and indices[0] == "idx":
+        return [indices]
+    if isinstance(indices, str):
+        names = _NAMES.findall(indices)
+        if "".join(names) != indices:
+            raise Raised("Inputerror")
+    else:
+        names = list(indices)
+        if all(isinstance(n, tuple) and n[:1] == ("idx",) for n in names):
+            return names
+        if not all(isinstance(n, str) for n in names):
+            raise Raised("Inputerror")
+    if spins is None:
+        spins = [""] * len(names)
+    if not isinstance(spins, (str, list, tuple)) or len(spins) != len(names):
+        raise Raised("Inputerror")
+    if any(s not in ("", "a", "b") for s in spins):
+        raise Raised("KeyError")
+    return [IDX(n, s) for n, s in zip(names, spins)]
+
+
+def _hooks(cfg, defaults):
+    def fields(sx, a, kw):
+        out = []
+        for k, v in defaults.items():
+            o = Obj(None, f"field:{k}")
+            o.attrs.update(name=k, default=v)
+            out.append(o)
+        return out
+
+    def tn():
+        return Obj(TN, "tensor_names", **cfg)
+    return {"get_symbols": _get_symbols, "fields": fields, "tensor_names": tn()}, tn
+
+
+def make_sx(ctx, what, cfg, defaults, extra=None):
+    hooks, tn = _hooks(cfg, defaults)
+    hooks.update(extra or {})
+    sx = Symex(ctx.model, inline=lambda q: True, hooks=hooks, what=what, max_steps=2000000, max_depth=40)
+
+    def start(s):
+        s.hooks["tensor_names"] = tn()
+    sx.on_start = start
+    return sx
+
+
+class Result:
+    def __init__(self, kind, val=None, exc=None, raw=None):
+        self.kind, self.val, self.exc, self.raw = kind, val, exc, raw
+
+    def __repr__(self):
+        return f"raises {self.exc}" if self.kind == "raise" else show(self.val)[:500]
+
+
+class Reader:
+    """import_from_sympy_latex evaluated on concrete text under one name configuration."""
+
+    def __init__(self, ctx, cfg, defaults, tag):
+        self.ctx, self.tag = ctx, tag
+        self.fn = ctx.model.fn(READER)
+        self.sx = make_sx(ctx, f"import_from_sympy_latex[{tag}]", cfg, defaults)
+        self.n = 0
+
+    def __call__(self, text, convert=False):
+        outs = self.sx.run(self.fn, lambda: positional(self.fn, text, convert_default_names=convert))
+        self.n += 1
+        if len(outs) != 1:
+            raise AnalysisError(f"C18: importer evaluation of `{text}` is not deterministic ({len(outs)} outcomes)")
+        o = outs[0]
+        if o.kind == "raise":
+            return Result("raise", exc=o.exc)
+        return Result("value", norm(o.value), raw=o.value)
+
+
+def read_check(ctx, rule, rd, x, key, what, convert=False):
+    r = rd(x.tex, convert)
+    ok = r.kind == "value" and same_value(r.val, x.val)
+    why = ""
+    if not ok:
+        why = f"{what}: importing `{x.tex}`{' with convert_default_names' if convert else ''} [{rd.tag} names] gives {r!r}"
+        if r.kind == "value":
+            miss, sur = multiset_diff(keys(r.val), keys(x.val))
+            why += f"; expected product(s) {miss[:2]}, got instead {sur[:2]}"
+        else:
+            why += f"; expected {show(x.val)[:300]}"
+    ctx.check(rule, rd.fn, ok, f"{what}: `{x.tex}` imported as the value it denotes", why, key=f"{key} [{rd.tag}]")
+    return r
+
+
+def refuse_check(ctx, rule, rd, text, exc, key, what):
+    r = rd(text)
+    ok = r.kind == "raise" and (exc is None or r.exc in exc)
+    ctx.check(rule, rd.fn, ok, f"{what}: `{text}` refused",
+              f"{what}: importing `{text}` {'raises ' + str(r.exc) if r.kind == 'raise' else 'is accepted: ' + repr(r)}, "
+              f"expected {' or '.join(exc) if exc else 'an error'}", key=f"{key} [{rd.tag}]")
+
+
+class Writer:
+    """The ``_latex`` methods evaluated on abstract objects."""
+
+    def __init__(self, ctx, cfg, defaults):
+        self.ctx = ctx
+
+        def _print(sx, args, kw):
+            """sympy's printer dispatch: an object with a ``_latex`` method prints itself, a string is itself."""
+            x = args[1] if len(args) > 1 else kw.get("expr")
+            if isinstance(x, Obj) and x.cls and sx.find_method(x.cls, "_latex"):
+                return sx.call_method(x, "_latex", [args[0]], {}, None)
+            if isinstance(x, str):
+                return x
+            return NotImplemented
+        self.sx = make_sx(ctx, "_latex", cfg, defaults, extra={"_print": _print, "doprint": _print})
+
+    @staticmethod
+    def index(ix):
+        o = Obj("indices:Index", f"index {ix[1]}{'_' + ix[2] if ix[2] else ''}")
+        o.attrs.update(name=ix[1], spin=ix[2])
+        return o
+
+    def obj(self, cls, *args):
+        if cls == "Index":
+            return self.index(args[0])
+        conv = tuple(tuple(self.index(i) for i in a) if isinstance(a, (tuple, list)) and not (len(a) == 3 and a[0] == "idx")
+                     else self.index(a) if isinstance(a, tuple) else a for a in args)
+        o = Obj(f"sympy_objects:{cls}", cls, args=conv)
+        if cls != "KroneckerDelta":
+            o.attrs["name"] = args[0]       # str(Symbol) and Symbol.name are both the tensor name
+        return o
+
+    def method(self, cls):
+        ref = "indices:Index" if cls == "Index" else f"sympy_objects:{cls}"
+        m = self.sx.find_method(ref, "_latex")
+        if m is None:
+            raise AnalysisError(f"C18: no _latex method for {cls}")
+        return m[0]
+
+    def __call__(self, cls, *args):
+        fn = self.method(cls)
+        outs = self.sx.run(fn, lambda: positional(fn, self.obj(cls, *args), Obj(None, "printer")))
+        if len(outs) != 1:
+            raise AnalysisError(f"C18: printer of {cls} is not deterministic on {args}")
+        o = outs[0]
+        if o.kind != "return" or not isinstance(o.value, str):
+            return fn, None, (o.exc if o.kind == "raise" else show(o.value))
+        return fn, o.value, None
+
+
+# ------------------------------------------------------------------ catalogue
+
+i, j, k, a, b, c, p, q = (IDX(n) for n in "ijkabcpq")
+ia, ib, ja, jb, aa, ab_, bb, pa, qb = IDX("i", "a"), IDX("i", "b"), IDX("j", "a"), IDX("j", "b"), IDX("a", "a"), \
+    IDX("a", "b"), IDX("b", "b"), IDX("p", "a"), IDX("q", "b")
+i1, j12a, a3, b10b = IDX("i1"), IDX("j12", "a"), IDX("a3"), IDX("b10", "b")
+
+GROUPS = [
+    ("spin free", (i, j), (a, b)),
+    ("all alpha/beta", (ia, jb), (aa, bb)),
+    ("spin-free before spin-labelled", (i, jb), (aa, b)),
+    ("spin-labelled before spin-free", (ib, j), (a, ab_)),
+    ("numbered", (i1, j12a), (a3, b10b)),
+    ("three indices mixed", (i, jb, k), (a, bb, c)),
+    ("single", (p,), (qb,)),
+    ("empty upper", (), (i, ja)),
+]
+
+
+# ------------------------------------------------------------------ R18b / R18b'
+
+def _top_level_tokens(s):
+    """Independent statement of what the importer splits on: unbalanced braces, top-level blank/sign, '}{'."""
+    d = 0
+    bad = []
+    for ch in s:
+        if ch == "{":
+            d += 1
+        elif ch == "}":
+            d -= 1
+            if d < 0:
+                bad.append("unbalanced '}'")
+                d = 0
+        elif ch in " +-" and d == 0:
+            bad.append(f"top-level {ch!r}")
+    if d != 0:
+        bad.append("unbalanced '{'")
+    if "}{" in s:
+        bad.append("'}{'")
+    return bad
+
+
+def r18b_writer(ctx, wr):
+    rule = "R18b"
+    n = 0
+
+    def one(cls, args, want, key, what):
+        nonlocal n
+        fn, text, err = wr(cls, *args)
+        n += 1
+        ctx.check(rule, fn, text == want, f"{what} printed as `{want}`",
+                  f"{what}: {cls}._latex prints `{text if text is not None else err}`, the documented format is `{want}`",
+                  key=f"writer {key}")
+        if text is not None:
+            bad = _top_level_tokens(text)
+            ctx.check("R18b'", fn, not bad, f"{what}: `{text}` is a single token for the importer",
+                      f"{what}: the printed text `{text}` contains {', '.join(sorted(set(bad)))}, where the importer splits "
+                      "terms, objects or fractions", key=f"token {key}")
+
+    for ix in (i, aa, jb, i1, j12a, b10b, pa):
+        one("Index", (ix,), tex_index(ix), f"index {ix[1:]}", f"index {ix[1]}{ix[2] and '_' + ix[2]}")
+    for cls in TWO_GROUP:
+        for tag, up, lo in GROUPS:
+            x = tensor(cls, "x", up, lo)
+            one(cls, ("x", up, lo, 0), x.tex, f"{cls} {tag}", f"{cls} with {tag} indices")
+        x = tensor(cls, "x", (i, j), (a, b))
+        one(cls, ("x", (i, j), (a, b), 1), x.tex, f"{cls} bra-ket symmetric", f"bra-ket symmetric {cls}")
+    for tag, up, lo in GROUPS:
+        x = nonsym("y", up + lo)
+        one("NonSymmetricTensor", ("y", up + lo), x.tex, f"NonSymmetricTensor {tag}", f"NonSymmetricTensor with {tag} indices")
+    for d in ((i, j), (ia, ja), (i, ia), (pa, q)):
+        want = "\\delta_{%s %s}" % (tex_index(d[0]), tex_index(d[1]))
+        one("KroneckerDelta", d, want, f"delta {d[0][1:]} {d[1][1:]}", f"delta of {d[0][1:]} and {d[1][1:]}")
+    ctx.floor(rule, "printer evaluations", n, 40)
+
+
+def r18b_reader(ctx, rd):
+    rule = "R18b"
+    for tag, up, lo in GROUPS:
+        read_check(ctx, rule, rd, tensor("AntiSymmetricTensor", "x", up, lo), f"indices {tag}", f"index groups ({tag})")
+        read_check(ctx, rule, rd, nonsym("y", up + lo), f"indices nonsym {tag}", f"index list ({tag})") if up + lo else None
+    for d in ((i, j), (ia, ja), (i, ia), (pa, q), (i1, j12a)):
+        read_check(ctx, rule, rd, delta(*d), f"delta {d[0][1:]} {d[1][1:]}", "delta with two blank-separated indices")
+    refuse_check(ctx, rule, rd, "\\delta_{i j k}", ("RuntimeError",), "delta three", "delta needs exactly two indices")
+    refuse_check(ctx, rule, rd, "\\delta_{i}", ("RuntimeError",), "delta one", "delta needs exactly two indices")
+    refuse_check(ctx, rule, rd, "{x^{i_{\\gamma}}_{a}}", ("RuntimeError",), "spin word", "spin words other than alpha/beta")
+    refuse_check(ctx, rule, rd, "{y_{i_{\\alph}}}", ("RuntimeError",), "spin word prefix", "spin words other than alpha/beta")
+    # operators
+    for ix in (i, ab_, p, j12a):
+        read_check(ctx, rule, rd, fd(ix), f"Fd {ix[1:]}", "a^\\dagger_{p} is a creation operator")
+        read_check(ctx, rule, rd, f(ix), f"F {ix[1:]}", "a_{p} is an annihilation operator")
+    refuse_check(ctx, rule, rd, "{a^\\dag_{i}}", ("RuntimeError",), "operator unknown", "unknown second-quantised operator")
+    refuse_check(ctx, rule, rd, "{a^{i}_{j}_{k}}", ("RuntimeError",), "operator groups", "unknown second-quantised operator")
+    refuse_check(ctx, rule, rd, "{x^{i}_{j}_{k}}", ("RuntimeError",), "three groups", "a tensor with three index groups")
+    # exponents
+    for n in (2, 12):
+        read_check(ctx, rule, rd, power(tensor("AntiSymmetricTensor", "x", (i, j), (a, b)), n), f"exponent tensor {n}",
+                   f"exponent ^{{{n}}} of a tensor restored")
+        read_check(ctx, rule, rd, power(nonsym("y", (i,)), n), f"exponent nonsym {n}", f"exponent ^{{{n}}} restored")
+    read_check(ctx, rule, rd, prod(power(nonsym("y", (i,)), 2), power(tensor("AntiSymmetricTensor", "x", (ia,), (ab_,)), 3)),
+               "exponent product", "exponents belong to their own object")
+    read_check(ctx, rule, rd, symbol("z"), "symbol", "a name without indices is a symbol")
+    read_check(ctx, rule, rd, power(symbol("z"), 2), "symbol power", "a name without indices is a symbol")
+
+
+# ------------------------------------------------------------------ R18a
+
+def _bindings(fn):
+    """name -> every expression that may be bound to it anywhere in the function (may-analysis, order-free)."""
+    out = {}
+
+    def bind(t, v):
+        if isinstance(t, ast.Name):
+            out.setdefault(t.id, []).append(v)
+        elif isinstance(t, (ast.Tuple, ast.List)):
+            for e in t.elts:
+                bind(e.value if isinstance(e, ast.Starred) else e, v)
+    for n in ast.walk(fn):
+        if isinstance(n, ast.Assign):
+            for t in n.targets:
+                bind(t, n.value)
+        elif isinstance(n, (ast.AnnAssign, ast.AugAssign, ast.NamedExpr)) and n.value is not None:
+            bind(n.target, n.value)
+        elif isinstance(n, (ast.For, ast.comprehension)):
+            bind(n.target, n.iter)
+        elif isinstance(n, (ast.FunctionDef, ast.Lambda)):
+            ar = n.args
+            pos = ar.posonlyargs + ar.args
+            for prm, d in zip(pos[len(pos) - len(ar.defaults):], ar.defaults):
+                out.setdefault(prm.arg, []).append(d)
+            for prm, d in zip(ar.kwonlyargs, ar.kw_defaults):
+                if d is not None:
+                    out.setdefault(prm.arg, []).append(d)
+    return out
+
+
+class _Flow:
+    """May-flow of ``tensor_names.<field>`` into an expression: through every local binding of a name (order- and
+    path-insensitive) and through parameters to the arguments at the call sites of the function in the package."""
+
+    def __init__(self, ctx, fields):
+        self.ctx, self.fields = ctx, fields
+        self.binds = {}
+        self.callers = None
+
+    def _aliases(self, mod):
+        """local names of the tensor_names singleton in a module"""
+        out = {k for k, v in mod.imports.items() if v.endswith("tensor_names:tensor_names")}
+        if mod.name == "tensor_names":
+            out.add("tensor_names")
+        return out
+
+    def _binds(self, fn):
+        if id(fn) not in self.binds:
+            self.binds[id(fn)] = _bindings(fn)
+        return self.binds[id(fn)]
+
+    def _call_sites(self, name):
+        if self.callers is None:
+            self.callers = {}
+            for ref, fn in self.ctx.model.all_functions():
+                if getattr(fn, "_fn", None) is not None:
+                    continue
+                for cl in calls_in(fn):
+                    self.callers.setdefault(call_name(cl), []).append((cl, fn))
+        return self.callers.get(name, [])
+
+    def _param_args(self, fn, prm):
+        """argument expressions bound to parameter ``prm`` of ``fn`` at its call sites: [(expr, caller)]"""
+        ar = fn.args
+        pos = [x.arg for x in ar.posonlyargs + ar.args]
+        if prm not in pos and prm not in [x.arg for x in ar.kwonlyargs]:
+            return []
+        out = []
+        for cl, caller in self._call_sites(fn.name):
+            skip = 1 if pos[:1] in (["self"], ["cls"]) and isinstance(cl.func, ast.Attribute) else 0
+            if prm in pos and not any(isinstance(x, ast.Starred) for x in cl.args):
+                k = pos.index(prm) - skip
+                if 0 <= k < len(cl.args):
+                    out.append((cl.args[k], caller))
+            out.extend((kw.value, caller) for kw in cl.keywords if kw.arg == prm)
+        return out
+
+    def fields_of(self, expr, fn, seen=None):
+        seen = set() if seen is None else seen
+        names = self._aliases(fn._module)
+        binds = self._binds(fn)
+        out = set()
+        for n in ast.walk(expr):
+            if isinstance(n, ast.Attribute) and isinstance(n.value, ast.Name) and n.value.id in names and n.attr in self.fields:
+                out.add(n.attr)
+            elif isinstance(n, ast.Call) and isinstance(n.func, ast.Name) and n.func.id == "getattr" and len(n.args) >= 2 \
+                    and isinstance(n.args[0], ast.Name) and n.args[0].id in names:
+                key = n.args[1]
+                if isinstance(key, ast.Constant) and isinstance(key.value, str):
+                    out |= {key.value} & set(self.fields)
+                elif isinstance(key, ast.JoinedStr):
+                    pat = "".join(re.escape(v.value) if isinstance(v, ast.Constant) else ".*" for v in key.values)
+                    out |= {f_ for f_ in self.fields if re.fullmatch(pat, f_)}
+            elif isinstance(n, ast.Name) and isinstance(n.ctx, ast.Load) and (id(fn), n.id) not in seen:
+                seen.add((id(fn), n.id))
+                for v in binds.get(n.id, []):
+                    out |= self.fields_of(v, fn, seen)
+                if len(seen) < 200:
+                    for v, caller in self._param_args(fn, n.id):
+                        out |= self.fields_of(v, caller, seen)
+        return out
+
+
+def writer_table(ctx, fields):
+    """configurable name field -> {class: [constructor call sites]}"""
     table = {}
     n_sites = 0
+    reader = ctx.model.fn(READER)
+    flow = _Flow(ctx, fields)
     for ref, fn in ctx.model.all_functions():
-        if ref.startswith("func:import_from_sympy_latex"):
-            continue  # the reader
-        if getattr(fn, "_fn", None) is not None:
+        if getattr(fn, "_fn", None) is not None or fn is reader:
             continue
-        defs = Defs(fn)
-        for c in calls_in(fn):
-            if call_name(c) not in CTORS or not isinstance(c.func, ast.Name) or not c.args:
+        for cl in calls_in(fn):
+            cls = call_name(cl)
+            if cls not in CTORS:
+                continue
+            name = cl.args[0] if cl.args and not isinstance(cl.args[0], ast.Starred) else \
+                next((kw.value for kw in cl.keywords if kw.arg == "name"), None)
+            if name is None:
                 continue
             n_sites += 1
-            src = U(defs.resolve(c.args[0]))
-            used = [f for f in fields if f"tensor_names.{f}" in src]
-            if "getattr(tensor_names" in src:
-                used += [f for f in fields if f.endswith("_adc_amplitude")]
-            for f in used:
-                table.setdefault(f, {}).setdefault(call_name(c), []).append(c)
+            for f_ in sorted(flow.fields_of(name, fn)):
+                table.setdefault(f_, {}).setdefault(cls, []).append(cl)
     return table, n_sites
 
 
-def reader_table(ctx):
-    fn = ctx.model.fn("func:import_from_sympy_latex.import_tensor")
-    fields = _fields(ctx)
-    tab = {}
-    default2 = None
-    default1 = None
-    for a in walk_fn(fn):
-        if isinstance(a, ast.Assign) and U(a.targets[0]) == "base" and isinstance(a.value, ast.Call) \
-                and call_name(a.value) in CTORS:
-            conds = conditions(a)
-            cls = call_name(a.value)
-            pos = [t for t, pol in conds if pol]
-            named = False
-            for t in pos:
-                for f in fields:
-                    if f"tensor_names.{f}" in t and ("name ==" in t or "name in" in t or "== name" in t):
-                        tab[f] = cls
-                        named = True
-                if "is_adc_amplitude(name)" in t or "is_t_amplitude(name)" in t:
-                    if "is_adc_amplitude(name)" in t:
-                        tab["left_adc_amplitude"] = tab["right_adc_amplitude"] = cls
-                    if "is_t_amplitude(name)" in t:
-                        tab["gs_amplitude"] = cls
-                    named = True
-            if not named:
-                if ("len(indices) == 2", True) in conds:
-                    default2 = cls
-                elif ("len(indices) == 1", True) in conds:
-                    default1 = cls
-    return tab, default2, default1, fn
-
-
-def r18a(ctx):
+def r18a(ctx, readers, cfgs):
     rule = "R18a"
-    W, n_sites = writer_table(ctx)
+    defaults = cfgs["default"]
+    W, n_sites = writer_table(ctx, defaults)
     ctx.floor(rule, "tensor constructor call sites in the package", n_sites, 30)
-    R, d2, d1, reader = reader_table(ctx)
-    if d2 is None or d1 is None:
-        raise AnalysisError("importer dispatch not recognised")
     ctx.floor(rule, "configurable names with a constructor site", len(W), 8)
-    for f, classes in sorted(W.items()):
-        for cls, sites in classes.items():
-            if cls in TWO_GROUP:
-                r = R.get(f, d2)
-            else:
-                r = d1
-            ctx.check(rule, sites[0], r == cls,
-                      f"tensor_names.{f}: written as {cls}, imported as {r}",
-                      f"the library builds tensors named tensor_names.{f} as {cls} ({len(sites)} site(s)), but "
-                      f"import_from_sympy_latex builds {r} for that name: the imported expression has another tensor kind",
-                      fn="func:import_from_sympy_latex.import_tensor", key=f"{f}: {cls} vs {r}")
-    # constructor arguments of the reader: (name, upper, lower)
-    for a in walk_fn(reader):
-        if isinstance(a, ast.Assign) and U(a.targets[0]) == "base" and isinstance(a.value, ast.Call) \
-                and call_name(a.value) in TWO_GROUP:
-            ctx.check(rule, a, [U(x) for x in a.value.args] == ["name", "upper", "lower"], "reader: (name, upper, lower)",
-                      f"reader builds `{U(a.value)}`", key=f"ctor args {call_name(a.value)}")
-    ul = {U(a.targets[0]): U(a.value) for a in walk_fn(reader) if isinstance(a, ast.Assign) and U(a.targets[0]) in ("upper", "lower")}
-    ctx.check(rule, reader, ul == {"upper": "import_indices(indices[0])", "lower": "import_indices(indices[1])"},
-              "first index group is the upper one", f"reader index groups {ul}", key="upper lower order")
+    ext = {"gs_amplitude": ("", "1", "2", "3cc", "cc"), "gs_density": ("", "2", "0")}
+    for tag, rd in readers.items():
+        cfg = cfgs[tag]
+        for f_, classes in sorted(W.items()):
+            for cls, sites in sorted(classes.items()):
+                for e in ext.get(f_, ("",)):
+                    name = cfg[f_] + e
+                    if cls in TWO_GROUP:
+                        cases = [tensor(cls, name, (i, j), (a, b)), tensor(cls, name, (a, bb), (i, jb)), tensor(cls, name, (p,), (q,))]
+                    else:
+                        cases = [nonsym(name, (i,)), nonsym(name, (p, qb, a))]
+                    for n, x in enumerate(cases):
+                        r = rd(x.tex)
+                        objs = [t for t in subterms(r.val) if t.op == "obj" and t.args[0] not in ("Symbol",)] if r.kind == "value" else []
+                        got = (objs[0].args[0], objs[0].args[1]) if len(objs) == 1 else None
+                        ctx.check(rule, sites[0], got == (cls, name),
+                                  f"tensor_names.{f_} (`{name}`): written as {cls}, `{x.tex}` imported as {cls}",
+                                  f"the library builds tensors named tensor_names.{f_} as {cls} ({len(sites)} site(s)), but "
+                                  f"import_from_sympy_latex turns `{x.tex}` [{tag} names] into "
+                                  f"{'a ' + got[0] + ' named ' + repr(got[1]) + ': the imported expression has another tensor kind' if got else repr(r)}",
+                                  fn=READER, key=f"{f_}{e and ' ' + e}: {cls} case {n} [{tag}]")
+        # names outside the configuration: antisymmetric / non-symmetric by the number of index groups; group order
+        for name in ("x", "Zero", "t2eri1", cfg["gs_amplitude"] + "x", "a1"):
+            read_check(ctx, rule, rd, tensor("AntiSymmetricTensor", name, (i, j), (a, b)), f"other {name} two groups",
+                       f"unconfigured name {name} with two index groups is antisymmetric, first group upper")
+            read_check(ctx, rule, rd, nonsym(name, (i, a)), f"other {name} one group",
+                       f"unconfigured name {name} with one index group is non-symmetric")
+        read_check(ctx, rule, rd, tensor("AntiSymmetricTensor", "x", (a, b), (i, j)), "upper lower order",
+                   "first index group is the upper one")
 
 
-def _strings(node):
-    return [n.value for n in ast.walk(node) if isinstance(n, ast.Constant) and isinstance(n.value, str)]
+# ------------------------------------------------------------------ R18c
+
+_T_NAME = re.compile(r"(\d+)?(cc)?")
 
 
-def r18b(ctx):
-    rule = "R18b"
-    idx = ctx.model.fn("indices:Index._latex")
-    rd = ctx.model.fn("func:import_from_sympy_latex.import_indices")
-    # spin words
-    words_w = sorted(s for s in _strings(idx) if s in ("alpha", "beta"))
-    words_r = []
-    for n in walk_fn(rd):
-        if isinstance(n, ast.Compare) and U(n.left) == "spin" and isinstance(n.comparators[0], (ast.List, ast.Tuple)):
-            words_r = sorted(_strings(n.comparators[0]))
-    ctx.check(rule, rd, words_w == ["alpha", "beta"] and words_r == words_w, "spin words alpha/beta on both sides",
-              f"writer prints {words_w}, reader accepts {words_r}", key="spin words")
-    ife = [n for n in walk_fn(idx) if isinstance(n, ast.IfExp)]
-    ctx.check(rule, idx, len(ife) == 1 and U(ife[0]) == "'alpha' if spin == 'a' else 'beta'", "writer: a -> alpha, b -> beta",
-              "spin word selection changed", key="spin writer")
-    sp = [c for c in calls_in(rd) if call_name(c) == "get_symbols" and len(c.args) == 2]
-    ctx.check(rule, rd, len(sp) == 1 and U(sp[0].args[1]) == "spin[0]" and U(sp[0].args[0]) == "names[-1]",
-              "reader: first letter of the word is the spin code, attached to the last name", "spin decoding changed", key="spin reader")
-    tok_w = [s for s in _strings(idx) if "_{" in s]
-    tok_r = [U(n.args[0]) for n in calls_in(rd) if call_name(n) == "split" and n.args and "_{" in U(n.args[0])]
-    ctx.check(rule, rd, tok_w == ["_{\\"] and tok_r == ["'_{\\\\'"], "spin suffix token `_{\\` on both sides",
-              f"writer token {tok_w}, reader token {tok_r}", key="spin token")
-    rest = [c for c in calls_in(rd) if call_name(c) == "get_symbols" and len(c.args) == 1]
-    ctx.check(rule, rd, sorted(U(c.args[0]) for c in rest) == ["names[:-1]", "sub_part"], "indices without suffix carry no spin",
-              "spin-less index import changed", key="no spin")
-    # tensors
-    at = ctx.model.fn("sympy_objects:AntiSymmetricTensor._latex")
-    nt = ctx.model.fn("sympy_objects:NonSymmetricTensor._latex")
-    fa = [s for s in _strings(at) if "%s" in s]
-    fn_ = [s for s in _strings(nt) if "%s" in s]
-    ctx.check(rule, at, fa == ["{%s^{%s}_{%s}}"], "antisymmetric/symmetric/amplitude: {name^{upper}_{lower}}",
-              f"tensor format is {fa}", key="tensor format")
-    ctx.check(rule, nt, fn_ == ["{%s_{%s}}"], "non-symmetric: {name_{indices}}", f"format is {fn_}", key="nonsym format")
-    ret = common.returns_of(at)[0].value
-    args = ret.right.elts if isinstance(ret, ast.BinOp) and isinstance(ret.right, ast.Tuple) else []
-    ok = len(args) == 3 and U(args[0]) == "self.symbol" and "self.args[1]" in U(args[1]) and "self.args[2]" in U(args[2])
-    ctx.check(rule, at, ok, "upper group (args[1]) printed as superscript, lower (args[2]) as subscript",
-              "order of the printed index groups changed", key="tensor groups")
-    for cls in ("Amplitude", "SymmetricTensor"):
-        c = ctx.model.cls(f"sympy_objects:{cls}")
-        own = [n.name for n in c.body if isinstance(n, ast.FunctionDef)]
-        ctx.check(rule, c, "_latex" not in own, f"{cls} shares the printer", f"{cls} has its own _latex", key=f"{cls} printer")
-    # delta
-    dl = ctx.model.fn("sympy_objects:KroneckerDelta._latex")
-    sd = _strings(dl)
-    ctx.check(rule, dl, "\\delta_{" in sd and " " in sd and "}" in sd, "delta: \\delta_{i j} with a blank between the indices",
-              f"delta printer strings {sd}", key="delta writer")
-    io = ctx.model.fn("func:import_from_sympy_latex.import_obj")
-    dr = [a for a in walk_fn(io) if isinstance(a, ast.Assign) and U(a.targets[0]) == "idx" and "\\\\delta_{" in U(a.value)]
-    ok = len(dr) == 1 and U(dr[0].value) == "obj_str[:-1].replace('\\\\delta_{', '', 1).split()"
-    ctx.check(rule, io, ok, "reader strips \\delta_{ .. } and splits at blanks", "delta reader changed", key="delta reader")
-    st = [n for n in walk_fn(io) if isinstance(n, ast.If) and "startswith('\\\\delta_')" in U(n.test)]
-    ctx.check(rule, io, len(st) == 1, "delta recognised by its prefix", "delta recognition changed", key="delta prefix")
-    chk = [n for n in walk_fn(io) if isinstance(n, ast.Raise) and ("len(idx) == 2", False) in conditions(n)]
-    ctx.check(rule, io, len(chk) == 1, "delta needs two indices", "delta index check removed", key="delta two")
-    # operators
-    it = ctx.model.fn("func:import_from_sympy_latex.import_tensor")
-    ops = {}
-    for a in walk_fn(it):
-        if isinstance(a, ast.Assign) and U(a.targets[0]) == "base" and isinstance(a.value, ast.Call) and call_name(a.value) in ("F", "Fd"):
-            ops[call_name(a.value)] = (sorted(t for t, pol in conditions(a) if pol and "indices" in t), U(a.value))
-    ok = ops.get("Fd", (None, None))[1] == "Fd(*import_indices(indices[1]))" and "indices[0] == '\\\\dagger'" in " ".join(ops["Fd"][0]) \
-        and ops.get("F", (None, None))[1] == "F(*import_indices(indices[0]))"
-    ctx.check(rule, it, ok, "a^\\dagger_{p} -> Fd, a_{p} -> F", f"operator import {ops}", key="operators")
-    # exponent
-    r = common.returns_of(it)
-    ctx.check(rule, it, U(r[-1].value) == "Pow(base, exponent)", "exponent restored", f"import_tensor returns `{U(r[-1].value)}`",
-              key="exponent")
-    ex = [a for a in walk_fn(it) if isinstance(a, ast.Assign) and U(a.targets[0]) == "exponent"]
-    vals = sorted(U(a.value) for a in ex)
-    ctx.check(rule, it, vals == ["1", "int(exponent.lstrip('{').rstrip('}'))", "tensor[separator + 1:]"],
-              "exponent parsed from ^{n}, default 1", f"exponent parsing {vals}", key="exponent parse")
+def _run1(ctx, sx, ref, args, what):
+    outs = sx.run(ref, lambda: dict(args()))
+    if len(outs) != 1:
+        raise AnalysisError(f"C18: {what} is not deterministic ({len(outs)} outcomes)")
+    o = outs[0]
+    return ("raise", o.exc) if o.kind == "raise" else ("value", o.value)
 
 
-def r18bp(ctx):
-    rule = "R18b'"
-    writers = ["indices:Index._latex", "sympy_objects:AntiSymmetricTensor._latex", "sympy_objects:NonSymmetricTensor._latex",
-               "sympy_objects:KroneckerDelta._latex"]
-    for w in writers:
-        fn = ctx.model.fn(w)
-        lits = [s for s in _strings(fn) if s and s != (ast.get_docstring(fn) or "")]
-        text = "".join(lits)
-        ok = all("}{" not in s for s in lits)
-        ctx.check(rule, fn, ok, f"{w.split(':')[1]}: no `}}{{` in the format", f"{w}: writer string contains the fraction separator "
-                  "`}{` the reader splits on", key=f"{w} fraction sep")
-        # blanks and signs only inside braces
-        depth_ok = True
-        for s in lits:
-            d = 0
-            for ch in s:
-                if ch == "{":
-                    d += 1
-                elif ch == "}":
-                    d -= 1
-                elif ch in " +-" and d <= 0 and not (w.endswith("KroneckerDelta._latex") and s == " "):
-                    depth_ok = False
-        ctx.check(rule, fn, depth_ok, f"{w.split(':')[1]}: no top-level blank or sign", f"{w}: a writer string has a top-level blank "
-                  "or sign (the reader splits objects/terms there)", key=f"{w} top-level sep")
-    dl = ctx.model.fn("sympy_objects:KroneckerDelta._latex")
-    t = U(common.returns_of(dl)[0].value)
-    a, b, c = t.find("\\\\delta_{"), t.find("' '.join"), t.rfind("'}'")
-    ctx.check(rule, dl, 0 <= a < b < c, "delta: the blank is enclosed by the braces",
-              "delta blank no longer enclosed", key="delta enclosed")
-
-
-def r18c(ctx):
+def r18c(ctx, readers, cfgs):
     rule = "R18c"
-    a = ctx.model.fn("tensor_names:_split_default_t_amplitude")
-    b = ctx.model.fn("tensor_names:_split_default_gs_density")
-    sa = [U(s) for s in common.strip_docstring(a.body)]
-    want_a = ["default = tensor_names.defaults()['gs_amplitude']", "base, ext = (name[:len(default)], name[len(default):])",
-              "if base != default:\n    return None", "order = ext.replace('c', '')", "if order and (not order.isnumeric()):\n    return None",
-              "return (base, ext)"]
-    ctx.check(rule, a, sa == want_a, "default t-amplitude split: prefix, optional number, optional cc", f"body is {sa}", key="split t")
-    sb = [U(s) for s in common.strip_docstring(b.body)]
-    want_b = ["default = tensor_names.defaults()['gs_density']", "base, order = (name[:len(default)], name[len(default):])",
-              "if base != default or (order and (not order.isnumeric())):\n    return None", "return (base, order)"]
-    ctx.check(rule, b, sb == want_b, "default density split: prefix, optional number", f"body is {sb}", key="split p")
-    m = ctx.model.fn("tensor_names:TensorNames.map_default_name")
-    rets = {}
-    for r in common.returns_of(m):
-        par = r._parent
-        key = U(par.test) if isinstance(par, ast.If) and r in par.body else "default"
-        rets[key] = U(r.value)
-    ok = rets.get("(split_name := _split_default_t_amplitude(name)) is not None") == "self.gs_amplitude + ext" and \
-        rets.get("(split_name := _split_default_gs_density(name)) is not None") == "self.gs_density + ext" and \
-        rets.get("field.default == name") == "getattr(self, field.name)" and rets.get("default") == "name"
-    ctx.check(rule, m, ok, "default names mapped to the configured ones, extension kept", f"map_default_name returns {rets}", key="map")
-    for f, attr in (("is_t_amplitude", "gs_amplitude"), ("is_gs_density", "gs_density")):
-        fn = ctx.model.fn(f"tensor_names:{f}")
-        rs = [U(r.value) for r in common.returns_of(fn)]
-        ok = rs == [f"base == tensor_names.{attr} and order.isnumeric()", f"base == tensor_names.{attr}"]
-        ctx.check(rule, fn, ok, f"{f}: configured prefix (+ number)", f"{f} returns {rs}", key=f)
-    ia = ctx.model.fn("tensor_names:is_adc_amplitude")
-    r = common.returns_of(ia)
-    ctx.check(rule, ia, U(r[0].value) == "name == tensor_names.left_adc_amplitude or name == tensor_names.right_adc_amplitude",
-              "ADC amplitudes: exactly the two configured names", "is_adc_amplitude changed", key="is_adc")
-    it = ctx.model.fn("func:import_from_sympy_latex.import_tensor")
-    mp = [a for a in walk_fn(it) if isinstance(a, ast.Assign) and U(a.value) == "tensor_names.map_default_name(name)"]
-    ctx.check(rule, it, len(mp) == 1 and ("convert_default_names", True) in conditions(mp[0]), "mapping only on request",
-              "default-name mapping not guarded by the flag", key="map flag")
+    defaults = cfgs["default"]
+    exts_ok = ["", "1", "2", "12", "cc", "1cc", "3cc"]
+    exts_bad = ["x", "1x", "_1", "a", "1a", "cc1x", "-1"]
+    for tag, cfg in cfgs.items():
+        sx = make_sx(ctx, f"tensor_names[{tag}]", cfg, defaults)
+        tn = lambda: Obj(TN, "tensor_names", **cfg)
+        others = sorted(set(list(cfg.values()) + list(defaults.values()) + ["x", "Zero", "a"]))
+        # recognisers
+        for fname, field, good in (("is_t_amplitude", "gs_amplitude", exts_ok), ("is_gs_density", "gs_density", ["", "0", "2", "12"])):
+            fn = ctx.model.fn(f"tensor_names:{fname}")
+            base = cfg[field]
+            table = {base + e: True for e in good}
+            table.update({base + e: False for e in exts_bad})
+            if fname == "is_gs_density":
+                table.update({base + "cc": False, base + "2cc": False})
+            for o in others:
+                if not o.startswith(base):
+                    table.setdefault(o, False)
+                    table.setdefault(o + "1", False)
+            for name, want in sorted(table.items()):
+                kind, v = _run1(ctx, sx, fn, lambda: positional(fn, name), f"{fname}({name!r})")
+                ctx.check(rule, fn, kind == "value" and v is want, f"{fname}({name!r}) is {want} [{tag} names]",
+                          f"{fname}({name!r}) gives {v!r} under the {tag} names ({field} = {base!r}), expected {want}: "
+                          f"{'a name the library prints for this tensor kind is not recognised' if want else 'a foreign name is taken for this tensor kind'}",
+                          key=f"{fname} {name} [{tag}]")
+        fn = ctx.model.fn("tensor_names:is_adc_amplitude")
+        for name in others + [cfg["left_adc_amplitude"] + "1", cfg["right_adc_amplitude"] + "cc"]:
+            want = name in (cfg["left_adc_amplitude"], cfg["right_adc_amplitude"])
+            kind, v = _run1(ctx, sx, fn, lambda: positional(fn, name), f"is_adc_amplitude({name!r})")
+            ctx.check(rule, fn, kind == "value" and v is want, f"is_adc_amplitude({name!r}) is {want} [{tag} names]",
+                      f"is_adc_amplitude({name!r}) gives {v!r} under the {tag} names, expected {want} (exactly the two configured names)",
+                      key=f"is_adc {name} [{tag}]")
+        # default names -> configured names
+        fn = ctx.model.fn(f"{TN}.map_default_name")
+        want = {}
+        for e in exts_ok:
+            want[defaults["gs_amplitude"] + e] = cfg["gs_amplitude"] + e
+        for e in ("", "0", "2", "12"):
+            want[defaults["gs_density"] + e] = cfg["gs_density"] + e
+        for f_, d in defaults.items():
+            want.setdefault(d, cfg[f_])
+        for e in exts_bad:
+            want.setdefault(defaults["gs_amplitude"] + e, defaults["gs_amplitude"] + e)
+            want.setdefault(defaults["gs_density"] + e, defaults["gs_density"] + e)
+        want.setdefault(defaults["gs_density"] + "2cc", defaults["gs_density"] + "2cc")
+        for nme in ("x", "Zero", "a", "t2eri1", "t2sq", defaults["eri"] + "1", defaults["fock"] + "cc"):
+            want.setdefault(nme, nme)
+        if tag != "default":
+            for nme in cfg.values():
+                want.setdefault(nme, nme)
+        for name, w in sorted(want.items()):
+            kind, v = _run1(ctx, sx, fn, lambda: positional(fn, tn(), name), f"map_default_name({name!r})")
+            ctx.check(rule, fn, kind == "value" and v == w, f"map_default_name({name!r}) = {w!r} [{tag} names]",
+                      f"map_default_name({name!r}) gives {v!r} under the {tag} names, expected {w!r} (default base replaced by "
+                      "the configured one, order/cc extension kept, other names unchanged)", key=f"map {name} [{tag}]")
+    # the importer maps default names on request only - everywhere it recurses
+    rd = readers["custom"]
+    cfg = cfgs["custom"]
+    d = defaults
+    t2d = tensor("AntiSymmetricTensor", d["gs_amplitude"] + "2", (a, b), (i, j))
+    t2c = tensor("Amplitude", cfg["gs_amplitude"] + "2", (a, b), (i, j))
+    vd = tensor("AntiSymmetricTensor", d["coulomb"], (i, a), (j, b))
+    vc = tensor("SymmetricTensor", cfg["coulomb"], (i, a), (j, b))
+    ed = nonsym(d["orb_energy"], (i,))
+    ec = nonsym(cfg["orb_energy"], (i,))
+    cases = [
+        ("plain", prod(t2d, vd, ed), prod(t2c, vc, ec)),
+        ("bracket", prod(bracket(total((1, t2d), (-1, vd)), 2), ed), prod(bracket(total((1, t2c), (-1, vc)), 2), ec)),
+        ("bracket no exponent", prod(ed, bracket(total((1, t2d), (1, vd)))), prod(ec, bracket(total((1, t2c), (1, vc))))),
+        ("NO group", prod(ed, no(prod(t2d, fd(i), f(a)))), prod(ec, no(prod(t2c, fd(i), f(a))))),
+        ("sum denominator", frac(t2d, total((1, ed), (-1, nonsym(d["orb_energy"], (a,))))),
+         frac(t2c, total((1, ec), (-1, nonsym(cfg["orb_energy"], (a,)))))),
+        ("numerator with signs", frac(total((1, t2d), (1, vd)), prod(ed, coeff=2)), frac(total((1, t2c), (1, vc)), prod(ec, coeff=2))),
+    ]
+    for key, xd, xc in cases:
+        # the flag reaching the recursive imports (brackets, NO groups, sums inside fractions) is importer arithmetic: R18d
+        r_ = rule if key == "plain" else "R18d"
+        read_check(ctx, r_, rd, X(xd.tex, xd.val), f"no conversion {key}", f"default names kept without the flag ({key})", convert=False)
+        read_check(ctx, r_, rd, X(xd.tex, xc.val), f"conversion {key}", f"default names mapped with the flag ({key})", convert=True)
 
 
-def r18d(ctx):
+# ------------------------------------------------------------------ R18d
+
+def r18d(ctx, rd, cfg):
     rule = "R18d"
-    fn = ctx.model.fn("func:import_from_sympy_latex")
-    loops = [n for n in fn.body if isinstance(n, ast.For) and U(n.iter) == "terms"]
-    ctx.floor(rule, "term loop of the importer", len(loops), 1)
-    lp = loops[0]
-    body = {U(s) for s in lp.body}
-    ctx.check(rule, lp, "sympy_term = -1 if sign == '-' else +1" in body, "'-' -> -1, '+' -> +1", "sign table changed", key="sign")
-    ctx.check(rule, lp, "sympy_term *= import_term(num)" in body, "numerator multiplied", "numerator handling changed", key="num")
-    dv = [s for s in ast.walk(lp) if isinstance(s, ast.AugAssign) and isinstance(s.op, ast.Div)]
-    ok = len(dv) == 1 and U(dv[0].value) == "import_term(denom)" and ("denom is None", False) in conditions(dv[0])
-    ctx.check(rule, lp, ok, "denominator divides", "denominator handling changed", key="denom")
-    ctx.check(rule, lp, "sympy_expr += sympy_term" in body, "every term added once", "term accumulation changed", key="add")
-    fr = [a for a in ast.walk(lp) if isinstance(a, ast.Assign) and U(a.targets[0]) == "(num, denom)"]
-    vals = sorted(U(a.value) for a in fr)
-    ctx.check(rule, lp, vals == ["(term, None)", "term[:-1].replace('\\\\frac{', '', 1).split('}{')"],
-              "\\frac{num}{denom} split in this order", f"fraction split {vals}", key="frac")
-    ret = common.returns_of(fn)
-    ctx.check(rule, fn, U(ret[-1].value) == "Expr(sympy_expr)", "sum returned", "return changed", key="ret")
-    io = ctx.model.fn("func:import_from_sympy_latex.import_obj")
-    rec = [c for c in calls_in(io) if call_name(c) == "import_from_sympy_latex"]
-    ok = len(rec) == 2 and all(U(kwarg(c, "convert_default_names", 1)) == "convert_default_names" for c in rec)
-    ctx.check(rule, io, ok, "brackets and NO recurse with the same name conversion", "recursion loses convert_default_names", key="recursion")
-    rs = [U(r.value) for r in common.returns_of(io)]
-    for want, what in (("Pow(obj.sympy, exponent)", "bracket exponent"), ("NO(obj.sympy)", "normal ordering"),
-                       ("sqrt(int(obj_str[:-1].replace('\\\\sqrt{', '', 1)))", "sqrt prefactor"), ("int(obj_str)", "integer prefactor"),
-                       ("KroneckerDelta(*idx)", "delta"), ("import_tensor(obj_str)", "tensor")):
-        ctx.check(rule, io, want in rs, f"{what} imported", f"{what}: return `{want}` not found ({rs})", key=what)
-    im = ctx.model.fn("func:import_from_sympy_latex.import_term")
-    r = common.returns_of(im)
-    ctx.check(rule, im, U(r[-1].value) == "Mul(*(import_obj(o) for o in objects))", "term = product of all its objects",
-              "term assembly changed", key="term product")
-    stt = ctx.model.fn("func:import_from_sympy_latex.split_terms")
-    cnd = [n for n in walk_fn(stt) if isinstance(n, ast.If) and "'+', '-'" in U(n.test)]
-    ok = any(U(n.test) == "char in ['+', '-'] and (not stack) and (i != term_start_idx)" for n in cnd)
-    ctx.check(rule, stt, ok, "terms split at top-level signs only", "term splitting changed", key="split terms")
+    V = tensor("AntiSymmetricTensor", cfg["eri"], (i, j), (a, b))
+    t1 = tensor("Amplitude", cfg["gs_amplitude"] + "1", (a, b), (i, jb))
+    v = tensor("SymmetricTensor", cfg["coulomb"], (i, a), (j, b))
+    ei, ea, ej = (nonsym(cfg["orb_energy"], (x,)) for x in (i, a, j))
+    dl = delta(i, ia)
+    cases = [
+        ("single term", total((1, V))),
+        ("leading minus", total((-1, V))),
+        ("two terms +", total((1, V), (1, t1))),
+        ("two terms -", total((1, V), (-1, t1))),
+        ("three terms mixed signs", total((-1, V), (1, prod(t1, ei)), (-1, prod(dl, ej, coeff=2)))),
+        ("same term twice", total((1, V), (1, V))),
+        ("integer prefactor", total((1, prod(V, t1, coeff=2)), (-1, prod(ei, coeff=12)))),
+        ("sqrt prefactor", total((1, prod(sqrt_(2), V)), (-1, prod(sqrt_(3), t1, coeff=2)))),
+        ("bare number", total((1, V), (-1, prod(coeff=3)))),
+        ("fraction number", total((1, frac(prod(V, t1), prod(coeff=4))))),
+        ("fraction minus", total((-1, frac(prod(V, coeff=3), prod(ei, coeff=2))), (1, t1))),
+        ("fraction sqrt", total((1, frac(prod(sqrt_(2), V), prod(coeff=2))), (1, frac(prod(sqrt_(6), t1, ei), prod(ea, coeff=4))))),
+        ("fraction one over", total((1, frac(prod(coeff=1), prod(ei, ea))))),
+        ("fraction sum denominator", total((1, frac(prod(v, coeff=3), total((-1, ea), (1, ei)))))),
+        ("fraction sum numerator", total((1, frac(total((1, V), (-1, t1)), prod(ei, coeff=2))))),
+        ("fraction bracket denominator", total((1, frac(prod(v, coeff=3), prod(bracket(total((-1, ea), (1, ei)), 2), coeff=4))),
+                                               (-1, frac(t1, prod(bracket(total((1, ei), (1, ej), (-1, ea))), bracket(total((1, ei), (-1, ea)))))))),
+        ("bracket", total((1, prod(bracket(total((1, V), (-1, t1))), ei)))),
+        ("bracket exponent", total((-1, prod(ei, bracket(total((1, V), (1, t1)), 2))), (1, bracket(total((1, ei), (-1, ea)), 12)))),
+        ("nested bracket", total((1, prod(bracket(total((1, prod(bracket(total((1, ei), (-1, ea))), V)), (1, t1)), 2), ej)))),
+        ("operators", total((1, prod(V, fd(i), fd(j), f(b), f(a))), (-1, prod(ei, fd(i), f(i))))),
+        ("operator order", total((1, prod(f(a), fd(i))), (1, prod(fd(i), f(a))))),
+        ("NO group", total((-1, prod(ei, no(prod(f(j), fd(i))))), (1, prod(V, no(prod(fd(i), fd(j), f(b), f(a))), coeff=2)))),
+        ("symbols", total((1, prod(symbol("x"), V, coeff=2)), (-1, power(symbol("y"), 2)))),
+        ("tensor powers", total((1, prod(power(V, 2), power(ei, 3))), (-1, frac(power(t1, 2), power(ea, 2))))),
+        ("delta and spin", total((1, prod(dl, tensor("AntiSymmetricTensor", cfg["fock"], (ia,), (ab_,)))), (-1, prod(delta(pa, q), v)))),
+    ]
+    for key, x in cases:
+        r = read_check(ctx, rule, rd, x, key, f"importer arithmetic ({key})")
+        if r.kind == "value":
+            ctx.check(rule, rd.fn, bare_expr(r.raw), f"{key}: the result is Expr(<sum>) without assumptions",
+                      f"importing `{x.tex}` returns {show(r.raw)[:200]} instead of a bare Expr of the sum", key=f"expr {key} [{rd.tag}]")
+    for text in ("", "   "):
+        r = rd(text)
+        ctx.check(rule, rd.fn, r.kind == "value" and r.val == 0 and bare_expr(r.raw), "empty text is Expr(0)",
+                  f"importing {text!r} gives {r!r}", key=f"empty {len(text)} [{rd.tag}]")
+    # surrounding blanks do not matter
+    x = total((-1, V), (1, t1))
+    read_check(ctx, rule, rd, X("  " + x.tex + " ", x.val), "padding", "leading/trailing blanks ignored")
+    read_check(ctx, rule, rd, X("+ " + V.tex, V.val), "explicit plus", "an explicit leading plus")
+    refuse_check(ctx, rule, rd, "\\left\\{a_{i}\\right\\}^{2}", ("NotImplementedError", "ValueError"), "NO exponent",
+                 "an exponent on a NO group")
 
 
-def r18e(ctx):
-    from . import c06
-    c06.init_symmetry(ctx, "R18e")
+# ------------------------------------------------------------------ R18e
 
+def r18e(ctx, cfgs):
+    rule = "R18e"
+    fn = ctx.model.fn("expr_container:Expr.__init__")
+    cfg = cfgs["custom"]
+    log = []
+
+    def snap(kind):
+        def h(sx, args, kw):
+            me = args[0]
+            st = (set(me.attrs.get("_sym_tensors") or ()), set(me.attrs.get("_antisym_tensors") or ()))
+            log.append((kind, st, list(args[1:]), dict(kw)))
+            if kind == "make_real":
+                me.attrs["_real"] = True
+            return me
+        return h
+    hooks = {"Expr._apply_tensor_braket_sym": snap("apply"), "Expr.make_real": snap("make_real"),
+             "Expr.set_target_idx": snap("target")}
+    sx = make_sx(ctx, "Expr.__init__", cfg, cfgs["default"], extra=hooks)
+    sx.isinstance_hook = lambda s, obj, cname: False
+    fe = {cfg["fock"], cfg["eri"]}
+    n = 0
+    for sym_t in (None, (), ("A",), ("A", cfg["fock"], cfg["eri"])):
+        for anti in (None, (), ("B",), ("B", "C")):
+            for real in (False, True):
+                for tgt in (None, "ij"):
+                    del log[:]
+                    me = []
+
+                    def args():
+                        del log[:]
+                        me[:] = [Obj("expr_container:Expr", "self")]
+                        return dict(self=me[0], e=sym("E"), real=real, sym_tensors=sym_t, antisym_tensors=anti, target_idx=tgt)
+                    outs = sx.run(fn, args)
+                    n += 1
+                    what = f"Expr(e, real={real}, sym_tensors={sym_t}, antisym_tensors={anti}, target_idx={tgt!r})"
+                    key = f"{real} {sym_t} {anti} {tgt}"
+                    if len(outs) != 1 or outs[0].kind != "return":
+                        ctx.bad(rule, fn, f"{what}: {outs}", key=f"init shape {key}")
+                        continue
+                    ds, da = set(sym_t or ()), set(anti or ())
+                    applied = [st for kd, st, _, _ in log if kd == "apply" and st[0] >= ds and st[1] >= da]
+                    # make_real adds fock/eri and re-applies the symmetry when one of them is missing (C06)
+                    applied += [st for kd, st, _, _ in log if kd == "make_real" and st[0] >= ds and st[1] >= da and not fe <= st[0]]
+                    if ds or da:
+                        ctx.check(rule, fn, bool(applied), f"{what}: declared bra-ket (anti)symmetry applied",
+                                  f"{what}: the declared names are stored but the bra-ket (anti)symmetry is never applied to the "
+                                  f"tensors (calls: {[(kd, sorted(st[0]), sorted(st[1])) for kd, st, _, _ in log]}): re-applying "
+                                  "assumptions that consist only of these names leaves the imported tensors without the symmetry",
+                                  key=f"init apply {key}")
+                    s_end, a_end = me[0].attrs.get("_sym_tensors"), me[0].attrs.get("_antisym_tensors")
+                    ok = isinstance(s_end, set) and isinstance(a_end, set) and ds <= s_end <= ds | fe and a_end == da
+                    ctx.check(rule, fn, ok, f"{what}: declared names stored", f"{what}: stores sym_tensors={s_end}, antisym_tensors={a_end}",
+                              key=f"init store {key}")
+                    mr = [x for x in log if x[0] == "make_real"]
+                    ctx.check(rule, fn, bool(mr) == real, f"{what}: make_real iff real",
+                              f"{what}: make_real is called {len(mr)} time(s)", key=f"init real {key}")
+                    tg = [x for x in log if x[0] == "target"]
+                    okt = (not tg) if tgt is None else (len(tg) == 1 and (tg[0][2] + list(tg[0][3].values())) == [tgt])
+                    ctx.check(rule, fn, okt, f"{what}: target indices forwarded", f"{what}: set_target_idx calls {[(x[2], x[3]) for x in tg]}",
+                              key=f"init target {key}")
+    ctx.floor(rule, "evaluations of Expr.__init__", n, 64)
+
+
+# ------------------------------------------------------------------ thorough: literal round trip
+
+def round_trip(ctx, wr, rd, cfg):
+    """import(print(O)) = O with the text produced by the evaluated printers, alone and embedded in products, fractions,
+    brackets and sums (the separators of the importer)."""
+    rule = "R18b"
+    kinds = [("AntiSymmetricTensor", cfg["eri"]), ("AntiSymmetricTensor", cfg["fock"]), ("AntiSymmetricTensor", cfg["gs_density"] + "2"),
+             ("AntiSymmetricTensor", "x"), ("SymmetricTensor", cfg["coulomb"]), ("SymmetricTensor", cfg["sym_orb_denom"]),
+             ("Amplitude", cfg["gs_amplitude"] + "2"), ("Amplitude", cfg["gs_amplitude"] + "1cc"), ("Amplitude", cfg["left_adc_amplitude"]),
+             ("Amplitude", cfg["right_adc_amplitude"])]
+    objs = []
+    for cls, name in kinds:
+        for tag, up, lo in GROUPS:
+            objs.append((f"{cls} {name} {tag}", (cls, name, up, lo, 0), tensor(cls, name, up, lo).val))
+    for tag, up, lo in GROUPS:
+        for name in (cfg["orb_energy"], "y"):
+            objs.append((f"NonSymmetricTensor {name} {tag}", ("NonSymmetricTensor", name, up + lo), nonsym(name, up + lo).val))
+    for d in ((i, j), (ia, ja), (i, ia), (pa, q), (i1, j12a)):
+        objs.append((f"delta {d[0][1:]} {d[1][1:]}", ("KroneckerDelta",) + d, delta(*d).val))
+    other = nonsym("z", (k,))
+    n = 0
+    for key, spec, val in objs:
+        fn, text, err = wr(*spec)
+        if text is None:
+            ctx.bad(rule, fn, f"{key}: printer gives {err}", key=f"round trip print {key}")
+            continue
+        x = X(text, val)
+        read_check(ctx, rule, rd, x, f"round trip {key}", f"import(print({key}))")
+        # (a delta never carries an exponent: KroneckerDelta._eval_power)
+        sq = x if spec[0] == "KroneckerDelta" else power(x, 2)
+        read_check(ctx, "R18b'", rd, total((-1, frac(prod(x, other, coeff=3), prod(sq, coeff=2))),
+                                            (1, prod(bracket(total((1, x), (-1, other)), 2), x))),
+                   f"embedded {key}", f"printed {key} inside a fraction, a bracket and a sum")
+        n += 1
+    ctx.floor(rule, "round trips", n, 100)
+
+
+def run_thorough(ctx):
+    if not (ctx.want("R18b") or ctx.want("R18b'")):
+        return
+    defaults, custom = configs(ctx)
+    for tag, cfg in (("default", defaults), ("custom", custom)):
+        round_trip(ctx, Writer(ctx, cfg, defaults), Reader(ctx, cfg, defaults, tag), cfg)
+
+
+# ------------------------------------------------------------------ driver
 
 def run(ctx):
+    defaults, custom = configs(ctx)
+    cfgs = {"default": defaults, "custom": custom}
+    readers = {}
+
+    def reader(tag):
+        if tag not in readers:
+            readers[tag] = Reader(ctx, cfgs[tag], defaults, tag)
+        return readers[tag]
     if ctx.want("R18e"):
-        r18e(ctx)
-    for r, f in (("R18a", r18a), ("R18b", r18b), ("R18b'", r18bp), ("R18c", r18c), ("R18d", r18d)):
-        if ctx.want(r):
-            f(ctx)
+        r18e(ctx, cfgs)
+    if ctx.want("R18b") or ctx.want("R18b'"):
+        r18b_writer(ctx, Writer(ctx, defaults, defaults))
+        r18b_reader(ctx, reader("default"))
+    if ctx.want("R18a"):
+        r18a(ctx, {t: reader(t) for t in cfgs}, cfgs)
+    if ctx.want("R18c"):
+        r18c(ctx, {t: reader(t) for t in cfgs}, cfgs)
+    if ctx.want("R18d"):
+        for tag in cfgs:
+            r18d(ctx, reader(tag), cfgs[tag])
